@@ -64,7 +64,8 @@ type IterPlan struct {
 
 type ComponentPlan struct {
 	SetupBehav int   `json:"setup_b,omitempty"`
-	IterBehav  []int `json:"iter_b,omitempty"` // per invocation (cyclic); empty = pass
+	IterBehav  []int `json:"iter_b,omitempty"`  // per invocation (cyclic); empty = pass
+	InTime     bool  `json:"in_time,omitempty"` // the behaviour happens inside t.Time(...)
 }
 
 type ScenarioProg struct {
@@ -369,8 +370,9 @@ func (h h1) Gen(prop, tier string, r *simrt.Rng) (any, simrt.Config) {
 				cp.SetupBehav = simrt.Pick(r, bFail, bFailNow, bPanicErr, bPanicStr)
 			}
 			for j, m := 0, r.Intn(5); j < m; j++ {
-				cp.IterBehav = append(cp.IterBehav, simrt.Pick(r, bPass, bPass, bPass, bFail, bFailNow, bPanicErr, bPanicStr))
+				cp.IterBehav = append(cp.IterBehav, simrt.Pick(r, bPass, bPass, bPass, bFail, bFailNow, bPanicErr, bPanicStr, bFatalf, bRequire))
 			}
+			cp.InTime = r.Intn(3) == 0
 			c.Prog.Components = append(c.Prog.Components, cp)
 		}
 	}
